@@ -39,6 +39,19 @@ def same_lattice(G1, G2, tol=1e-6):
 def niggli_like_cells(rng):
     """reduced cells and the same lattices in a random unimodular change of basis (entries within the default search range)"""
     kind = rng.random()
+    if kind < 0.12:
+        # cubic / tetragonal lattices in a non-reduced setting: many of these cells have one right angle and two supplementary ones
+        a = rng.uniform(3, 9)
+        base = [a, a, rng.choice([a, a * rng.uniform(1.05, 1.6)]), 90.0, 90.0, 90.0]
+        while True:
+            N = np.array([[rng.randint(-1, 1) for _ in range(3)] for _ in range(3)])
+            if abs(round(np.linalg.det(N))) == 1 and not np.array_equal(np.abs(N), np.eye(3)):
+                break
+        from xfab import tools
+        cell = [float(x) for x in tools.a_to_cell(tools.form_a_mat(base).dot(N))]
+        cell = cell[:3] + [float(round(x, 9)) for x in cell[3:]]
+        if G.gram(*cell[3:]) >= 0.02:
+            return base, cell, N
     if kind < 0.3:
         a, b, c = sorted(rng.uniform(3, 9) for _ in range(3))
         base = [a, b, c, 90.0, 90.0, 90.0]
@@ -62,6 +75,24 @@ def niggli_like_cells(rng):
     return base, cell, N
 
 
+def supplementary_cell(rng):
+    """one right angle and two supplementary ones (cos alpha + cos beta + cos gamma = 0 without being orthogonal): special settings of centred / high-symmetry lattices"""
+    th = float(rng.choice([60, 70, 75, 80, 100, 110, 120, round(rng.uniform(55, 125), 1)]))
+    ang = [90.0, th, 180.0 - th]
+    rng.shuffle(ang)
+    return [round(rng.uniform(3, 9), 3) for _ in range(3)] + ang
+
+
+def f10_signature(cell, red):
+    """is the returned cell the one the open finding F10 describes?  F10: the selected lattice vectors A.n_i are stored as rows and read back as columns, so the returned
+    metric is A N N' A' (N integer unimodular) instead of N' A' A N.  N N' is then an integer matrix of determinant 1."""
+    from xfab import tools
+    A = np.asarray(tools.form_a_mat(cell), float)
+    Ai = np.linalg.inv(A)
+    S = Ai.dot(metric(red)).dot(Ai.T)
+    return bool(np.max(np.abs(S - np.rint(S))) < 1e-5 and abs(np.linalg.det(np.rint(S)) - 1) < 1e-9)
+
+
 def classify(cell):
     ortho = all(abs(x - 90.0) < 1e-9 for x in cell[3:])
     return 'orthogonal' if ortho else 'non-orthogonal'
@@ -73,6 +104,8 @@ def search(ctx):
     seen = set()
     for i in range(ctx.n(60, 600)):
         base, cell, N = niggli_like_cells(ctx.rng)
+        if i % 8 == 5:
+            base, cell = None, supplementary_cell(ctx.rng)
         for modname, mod in (('tools', tools), ('laue', laue)):
             why, cls = None, None
             try:
@@ -85,13 +118,15 @@ def search(ctx):
                         why, cls = 'volume changes from %.6f to %.6f' % (V0, V1), 'volume'
                     elif not same_lattice(metric(cell), metric(red)):
                         why, cls = 'returned cell %r is not a basis of the input lattice' % ([round(float(x), 4) for x in red],), 'lattice:' + classify(cell)
-                    else:
+                        if cls == 'lattice:non-orthogonal' and not f10_signature(cell, red):
+                            cls = 'lattice:non-orthogonal:not the transposed-basis cell of F10'
+                    elif base is not None:
                         # built from the shortest non-coplanar vectors: sum of squared lengths equals that of the known reduced cell
                         if abs(sum(x * x for x in red[:3]) - sum(x * x for x in base[:3])) > 1e-6 * sum(x * x for x in base[:3]):
                             why, cls = 'not the shortest vectors: lengths %r, reduced cell has %r' % (red[:3].tolist(), base[:3]), 'shortest'
             except Exception as e:
                 why, cls = 'raised %s: %s' % (type(e).__name__, e), 'exc'
-            ctx.count(('r', modname, i), hist='search:%s:%s' % (modname, classify(cell)), sample={'module': modname, 'cell': [float(x) for x in cell]} if i == 0 else None)
+            ctx.count(('r', modname, i), hist='search:%s:%s%s' % (modname, classify(cell), ':supplementary angles' if abs(sum(math.cos(math.radians(x)) for x in cell[3:])) < 1e-9 and classify(cell) != 'orthogonal' else ''), sample={'module': modname, 'cell': [float(x) for x in cell]} if i == 0 else None)
             if why and (modname, cls) not in seen:
                 seen.add((modname, cls))
                 fails.append({'module': modname, 'cell': [float(x) for x in cell], 'class': cls, 'what': why, 'replay': '%s.reduce_cell(%r): %s' % (modname, [float(x) for x in cell], why)})
